@@ -363,6 +363,13 @@ def run(ctx, R, tier):
     from . import c03
     R3 = Rules("C03")
     c03.run(ctx, R3, tier)
+    from . import c17
+    R17 = Rules("C17")
+    c17.run(ctx, R17, tier)
+    for o in R17.obs:
+        if o.key == "C17-R1|receive_data|short-read-decided-by-length":
+            R.add("C08-R5", "receive_data|short-read-decided-by-length", o.desc + " (a CONNECT with an empty payload must be answered with a connect-failure, not dropped as a closed connection)",
+                  o.ok, o.loc, o.detail)
     for o in R3.obs:
         if o.key == "C03-R7|recv_stub|prefix-read-and-validated-first":
             R.add("C08-R5", "recv_stub|prefix-read-and-validated-first", o.desc + " (a first message that is not a Pyro message is refused at once)", o.ok, o.loc, o.detail)
